@@ -25,6 +25,7 @@ from .lib import Rec, HarnessError, VERIF
 N_WORKERS = int(os.environ.get('VERIF_WORKERS', '16'))
 MAX_SAMPLES = 8
 SHRINK_CALLS = {'quick': 1500, 'thorough': 6000}
+SHRINK_SECONDS = {'quick': 20, 'thorough': 120}
 WATCHDOG_S = {'quick': 1500, 'thorough': 6 * 3600}
 
 
@@ -207,9 +208,11 @@ def run_shard(task):
             new = [lab for lab in stats.viol if lab not in known_labels][:3]
             for lab in new:
                 budget = [SHRINK_CALLS[tier]]
+                # wall-clock cap on *shrinking only* (minimality of the replay file, never the verdict)
+                deadline = time.monotonic() + SHRINK_SECONDS[tier]
 
                 def cond(case, lab=lab):
-                    if budget[0] <= 0:
+                    if budget[0] <= 0 or time.monotonic() > deadline:
                         return False
                     budget[0] -= 1
                     case.setdefault('sub', sub_name)
